@@ -1,11 +1,281 @@
 /-
 C15 — extension operators only add well-placed cells, never touch observed data.
+Only property theorems live here (helper lemmas: `Lemmas/Extend.lean`).
+
+Proved: the right triangle and the right diagonal on a cumulative (`Cell` / `CumulativeCell`) input
+(`*_partial`: the incremental path — `to_cumulative`, `to_incremental`, `_fix_prev_evaluation_date` —
+is covered by the correspondence and the Spec on the implementation's output, not by a theorem), and
+the structure of `backfill`. Statements not proved are kept below as `-- OPEN` comments.
 -/
-import Bermuda.Model.Extend
+import Bermuda.Lemmas.Extend
 import Bermuda.Spec.C15
 namespace Bermuda.Properties.C15
 open Bermuda Bermuda.Extend
 
-theorem emptyCell_values (c : Cell) (d : Date) : (emptyCell c d).values = [] := rfl
+/-! ### `make_right_triangle` -/
+
+section RightTriangle
+variable {t out : List Cell} {lags : Option (List Rat)} {u : LagUnit}
+
+/-- **rightTri_lags_exact_partial** (cumulative input). The result consists exactly of the cells
+`emptyCell e (period_end + lag)` for a slice of the triangle, `e` a right-edge cell of the slice (the
+latest observation of its row, `RightTriCell.row`) and `lag` ranging over the slice's lag list (the
+requested list, or the slice's own lags) restricted to `lag > e.dev_lag`. -/
+theorem rightTri_lags_exact_partial (hinc : Triangle.isIncremental t = false) (h : makeRightTriangleU t lags (some u) = .ok out) (c : Cell) :
+    c ∈ out ↔ RightTriCell t lags u c := by
+  obtain ⟨new, hnew, hperm⟩ := makeRightTriangle_cum hinc h
+  rw [hperm.mem_iff]
+  exact rightTriangleCells_mem hnew c
+
+/-- **rightTri_metadata_partial** (cumulative input): every added cell carries the metadata and period of an
+observed cell — the latest observation of that slice row -/
+theorem rightTri_metadata_partial (hinc : Triangle.isIncremental t = false) (h : makeRightTriangleU t lags (some u) = .ok out) {c : Cell} (hc : c ∈ out) :
+    ∃ e ∈ t, c.md = e.md ∧ c.ps = e.ps ∧ c.pe = e.pe ∧
+      ∀ o ∈ t, o.md = e.md → o.ps = e.ps → o.pe = e.pe → Date.cmp o.ev e.ev ≠ .gt := by
+  obtain ⟨e, he, hce, hlatest, _⟩ := ((rightTri_lags_exact_partial hinc h c).mp hc).row
+  refine ⟨e, he, ?_, ?_, ?_, hlatest⟩ <;> (rw [hce]; rfl)
+
+/-- **rightTri_values_empty_partial** (cumulative input) -/
+theorem rightTri_values_empty_partial (hinc : Triangle.isIncremental t = false)
+    (h : makeRightTriangleU t lags (some u) = .ok out) :
+    ∀ c ∈ out, c.values = [] := by
+  intro c hc
+  obtain ⟨e, _, hce, _⟩ := ((rightTri_lags_exact_partial hinc h c).mp hc).row
+  rw [hce]; rfl
+
+/-- **rightTri_basis_partial** (cumulative input): the added cells are cumulative cells -/
+theorem rightTri_basis_partial (hinc : Triangle.isIncremental t = false)
+    (h : makeRightTriangleU t lags (some u) = .ok out) :
+    ∀ c ∈ out, c.kind = .cumulative ∧ c.prev = none := by
+  intro c hc
+  obtain ⟨e, _, hce, _⟩ := ((rightTri_lags_exact_partial hinc h c).mp hc).row
+  rw [hce]; exact ⟨rfl, rfl⟩
+
+/-- **rightTri_empty_when_complete_partial** (cumulative input): if no slice has a lag beyond the lag of one of
+its right-edge cells, the result is the empty triangle -/
+theorem rightTri_empty_when_complete_partial (hinc : Triangle.isIncremental t = false)
+    (h : makeRightTriangleU t lags (some u) = .ok out)
+    (hcomplete : ∀ p ∈ Triangle.slices t, ∀ e ∈ p.2, ∀ lag ∈ lagListOf lags u p.2, ¬ lag > e.devLag u) :
+    out = [] := by
+  apply List.eq_nil_iff_forall_not_mem.mpr
+  intro c hc
+  obtain ⟨p, hp, edge, hedge, e, he, lag, hlag, hgt, _⟩ := (rightTri_lags_exact_partial hinc h c).mp hc
+  exact hcomplete p hp e (rightEdge_latest hedge he).1 lag hlag hgt
+
+/-- **rightTri_disjoint_partial** (cumulative input, month unit, month-aligned triangle from 1970 on, integer
+lags): every added cell lies strictly after every observation of its slice row; in particular no
+added coordinate is occupied. -/
+theorem rightTri_disjoint_partial (hinc : Triangle.isIncremental t = false)
+    (h : makeRightTriangleU t lags (some .month) = .ok out)
+    (hal : ∀ c ∈ t, MonthAligned c)
+    (hint : ∀ p ∈ Triangle.slices t, ∀ lag ∈ lagListOf lags .month p.2, ∃ k : Int, lag = ((k : Int) : Rat))
+    {c o : Cell} (hc : c ∈ out) (ho : o ∈ t) (hmd : o.md = c.md) (hps : o.ps = c.ps) (hpe : o.pe = c.pe) :
+    o.ev < c.ev := by
+  obtain ⟨e, he, hce, hlatest, p, hp, _, lag, hlag, hgt, hev⟩ := ((rightTri_lags_exact_partial hinc h c).mp hc).row
+  obtain ⟨k, rfl⟩ := hint p hp lag hlag
+  have h1 : c.md = e.md := by rw [hce]; rfl
+  have h2 : c.ps = e.ps := by rw [hce]; rfl
+  have h3 : c.pe = e.pe := by rw [hce]; rfl
+  have hle := hlatest o ho (hmd.trans h1) (hps.trans h2) (hpe.trans h3)
+  have hlt := addMonths_after (hal e he) hgt
+  have hev' : addMonths e.pe ((k : Int) : Rat) = c.ev := Except.ok.inj hev
+  rw [← hev']
+  exact Date.lt_of_not_gt_of_lt hle hlt
+
+end RightTriangle
+
+/-- **rightDiag_spec_partial** (cumulative input, `include_historic = False`): the result consists exactly of
+the empty cumulative cells on the rows of the slices' right-edge cells at the requested dates that lie
+after the slice's latest evaluation date (and not before the period start); every such cell carries the
+metadata and period of an observed row and lies strictly after every observation of its slice — so no
+added coordinate is occupied. -/
+theorem rightDiag_spec_partial {t out : List Cell} {dates : List Date}
+    (hinc : Triangle.isIncremental t = false) (h : makeRightDiagonal t dates false = .ok out) :
+    (∀ c, c ∈ out ↔ RightDiagCell t dates false c) ∧
+    (∀ c ∈ out, ∃ e ∈ t, c = emptyCell e c.ev ∧ c.ev ∈ dates ∧ e.ps ≤ c.ev ∧
+      ∀ o ∈ t, o.md = c.md → o.ev < c.ev) := by
+  obtain ⟨new, hnew, hperm⟩ := makeRightDiagonal_cum hinc h
+  have hiff : ∀ c, c ∈ out ↔ RightDiagCell t dates false c := fun c => by
+    rw [hperm.mem_iff]; exact rightDiagonalCells_mem hnew c
+  refine ⟨hiff, ?_⟩
+  intro c hc
+  obtain ⟨p, hp, edge, hedge, e, he, d, hd, hle, rfl⟩ := (hiff c).mp hc
+  obtain ⟨hep, _⟩ := rightEdge_latest hedge he
+  obtain ⟨het, hem⟩ := (slices_spec hp e).mp hep
+  -- the kept dates exceed the slice's latest evaluation date
+  have hne : p.2 ≠ [] := List.ne_nil_of_mem hep
+  obtain ⟨m, hm⟩ : ∃ m, maxEval p.2 = some m := by
+    cases hp2 : p.2 with
+    | nil => exact absurd hp2 hne
+    | cons a rest => exact ⟨_, rfl⟩
+  simp only [diagDatesOf, Bool.false_eq_true, if_false, hm, List.mem_filter, decide_eq_true_eq] at hd
+  refine ⟨e, het, rfl, hd.1, hle, ?_⟩
+  intro o ho hmd
+  have hop : o ∈ p.2 := (slices_spec hp o).mpr ⟨ho, hmd.trans hem⟩
+  exact Date.lt_of_not_gt_of_lt (maxEval_ge hm o hop) hd.2
+
+/-! ### `backfill` -/
+
+/-- **backfill_preserves_observed**: the result is a rearrangement of the observed cells together with
+the added ones — no observed cell is dropped, duplicated or altered. -/
+theorem backfill_preserves_observed {t out : List Cell} {statics : List String} {res? : Option Int}
+    {minLag : Int} (h : backfill t statics res? minLag = .ok out) :
+    ∃ added, out.Perm (t ++ added) ∧ ∀ c ∈ t, c ∈ out := by
+  unfold backfill at h
+  cases hpr : periodResolution t with
+  | none => simp [hpr, bind, Except.bind, throw, throwThe, MonadExceptOf.throw] at h
+  | some pres =>
+    simp only [hpr, bind, Except.bind, pure, Except.pure] at h
+    split at h
+    · cases h
+    · split at h
+      · cases h
+      · rename_i addTri hadd
+        unfold Triangle.add at h
+        have hperm := Properties.C01.ofCells_perm h
+        exact ⟨addTri, hperm, fun c hc => hperm.mem_iff.mpr (List.mem_append_left _ hc)⟩
+
+/-- **backfill_added_before_first / backfill_values** (structure): the result is a rearrangement of the
+observed cells and added cells; every added cell is a copy of the first cell `first` of a period row
+(the earliest observation of the period's first slice: same metadata, period, class and previous
+date) with the replacement values and evaluation date `period_end + (first_lag - (i+1)·res)`,
+`i < backfillSteps`, for the (given or inferred) resolution `res > 0`. -/
+theorem backfill_added_before_first {t out : List Cell} {statics : List String} {res? : Option Int}
+    {minLag : Int} (h : backfill t statics res? minLag = .ok out) :
+    ∃ added pres, periodResolution t = some pres ∧ out.Perm (t ++ added) ∧
+      ∀ a ∈ added, ∃ row ∈ periodRows t, ∃ first, row.2.head? = some first ∧
+        ∃ repl, replacementValues first statics = .ok repl ∧
+        ∃ res, (match res? with | some r => some r | none => evalDateResolution t) = some res ∧ 0 < res ∧
+        ∃ i, i < backfillSteps first.devLag res (max minLag (-pres + 1)) ∧
+          a = backfillCell first repl res i := by
+  unfold backfill at h
+  cases hpr : periodResolution t with
+  | none => simp [hpr, bind, Except.bind, throw, throwThe, MonadExceptOf.throw] at h
+  | some pres =>
+    simp only [hpr, bind, Except.bind, pure, Except.pure] at h
+    split at h
+    · cases h
+    · rename_i parts hparts
+      split at h
+      · cases h
+      · rename_i addTri hadd
+        unfold Triangle.add at h
+        refine ⟨addTri, pres, rfl, Properties.C01.ofCells_perm h, ?_⟩
+        intro a ha
+        have ha' := (Properties.C01.ofCells_perm hadd).mem_iff.mp ha
+        obtain ⟨row, hrow, ys, hys, hay⟩ := (mapM_flatten_mem hparts a).mp ha'
+        obtain ⟨first, hf, repl, hrepl, res, hres, hpos, i, hi, rfl⟩ := backfillRow_mem hys hay
+        exact ⟨row, hrow, first, hf, repl, hrepl, res, hres, hpos, i, hi, rfl⟩
+
+/-- **backfill_min_lag** (lower bound): the lag of every added cell is at least the requested minimum
+lag and at least `-period_resolution + 1`; it is strictly below the row's first lag. -/
+theorem backfill_min_lag {cur : Rat} {res lo : Int} {i : Nat} (hres : 0 < res)
+    (hi : i < backfillSteps cur res lo) :
+    (lo : Rat) ≤ cur - (((i : Int) + 1 : Int) : Rat) * (res : Rat) ∧
+    cur - (((i : Int) + 1 : Int) : Rat) * (res : Rat) < cur := by
+  have hr : (0 : Rat) < (res : Rat) := by exact_mod_cast hres
+  have hi1 : (0 : Rat) < (((i : Int) + 1 : Int) : Rat) := by
+    have : (0 : Int) < (i : Int) + 1 := by omega
+    exact_mod_cast this
+  refine ⟨?_, by nlinarith⟩
+  unfold backfillSteps at hi
+  have hfl : ((i : Int) + 1 : Int) ≤ ((cur - (lo : Rat)) / (res : Rat)).floor := by omega
+  have h1 : ((((cur - (lo : Rat)) / (res : Rat)).floor : Int) : Rat) ≤ (cur - (lo : Rat)) / (res : Rat) := by
+    show ((⌊(cur - (lo : Rat)) / (res : Rat)⌋ : Int) : Rat) ≤ _
+    exact Int.floor_le _
+  have h2 : (((i : Int) + 1 : Int) : Rat) ≤ (cur - (lo : Rat)) / (res : Rat) := by
+    have : (((i : Int) + 1 : Int) : Rat) ≤ ((((cur - (lo : Rat)) / (res : Rat)).floor : Int) : Rat) := by
+      exact_mod_cast hfl
+    linarith
+  rw [le_div_iff₀ hr] at h2
+  linarith
+
+/-- **backfill_values**: the values of a backfilled cell have the keys of the row's first observation;
+a static field carries that observation's value, every other field is the integer 0 — no invented
+losses. -/
+theorem backfill_values {first : Cell} {statics : List String} {repl : Dict Val}
+    (h : replacementValues first statics = .ok repl) :
+    repl.keys = first.values.keys ∧
+    ∀ kv ∈ repl, (kv.1 ∈ statics ∧ first.values.get? kv.1 = some kv.2) ∨
+                 (kv.1 ∉ statics ∧ kv.2 = Val.int 0) := by
+  have hinit : ReplInv first [] (first.values.map fun kv => (kv.1, Val.int 0)) := by
+    constructor
+    · simp [Dict.keys, List.map_map, Function.comp]
+    · intro kv hkv
+      obtain ⟨p, _, rfl⟩ := List.mem_map.mp hkv
+      right; simp
+  have := replFold statics [] _ repl hinit h
+  rw [List.nil_append] at this
+  exact this
+
+/-! ### non-vacuity: a concrete month-aligned two-row triangle meets the hypotheses -/
+
+def exCells : List Cell :=
+  [ { kind := .cumulative, ps := ⟨2020, 1, 1⟩, pe := ⟨2020, 3, 31⟩, ev := ⟨2020, 3, 31⟩, values := [("paid_loss", .int 1)] },
+    { kind := .cumulative, ps := ⟨2020, 1, 1⟩, pe := ⟨2020, 3, 31⟩, ev := ⟨2020, 6, 30⟩, values := [("paid_loss", .int 2)] },
+    { kind := .cumulative, ps := ⟨2020, 4, 1⟩, pe := ⟨2020, 6, 30⟩, ev := ⟨2020, 6, 30⟩, values := [("paid_loss", .int 3)] } ]
+
+theorem exCells_aligned : ∀ c ∈ exCells, MonthAligned c := by
+  intro c hc
+  simp only [exCells, List.mem_cons, List.not_mem_nil, or_false] at hc
+  rcases hc with rfl | rfl | rfl <;> (unfold MonthAligned; decide)
+
+theorem exCells_cumulative : Triangle.isIncremental exCells = false := rfl
+
+/-- `backfill_min_lag` is not vacuous: first lag 3, resolution 1, bound 0 gives three steps -/
+example : 2 < backfillSteps 3 1 0 := by decide +kernel
+
+/-- `backfill_values` is not vacuous: losses become 0, the static field is carried -/
+def exFirst : Cell :=
+  { ps := ⟨2020, 1, 1⟩, pe := ⟨2020, 1, 31⟩, ev := ⟨2020, 3, 31⟩, values := [("paid_loss", .int 5), ("earned_premium", .int 100)] }
+
+example : replacementValues exFirst ["earned_premium"]
+    = .ok [("paid_loss", .int 0), ("earned_premium", .int 100)] := by decide +kernel
+
+-- (`makeRightTriangleU exCells none (some .month)` evaluates to the three cells 2020-Q1@2020-09-30 … in
+-- `#eval`; the kernel cannot reduce `mergeSort`/`Rat` terms of that size, so the instance is exercised by
+-- the correspondence harness instead.)
+
+
+/-! ### statements not proved (covered by the correspondence + Spec on the implementation's output) -/
+
+-- OPEN rightTri_lags_exact
+--   the statement of `rightTri_lags_exact_partial` for an incremental input `t`, with the cells read off
+--   `cum` where `Triangle.toCumulative t = .ok cum`, and each added cell an incremental cell:
+--   makeRightTriangle t lags unit = .ok out → Triangle.toCumulative t = .ok cum →
+--     (out.map fun c => (c.md, c.ps, c.pe, c.ev)).Perm (new.map ...)  for  rightTriangleCells cum lags unit = .ok new
+-- OPEN rightTri_metadata
+--   as `rightTri_metadata_partial` without `hinc`
+-- OPEN rightTri_values_empty
+--   ∀ t lags unit out, makeRightTriangle t lags unit = .ok out → ∀ c ∈ out, c.values = []   (incremental input included)
+-- OPEN rightTri_basis
+--   makeRightTriangle t lags unit = .ok out → Triangle.isIncremental t = true → ∀ c ∈ out, c.kind = .incremental ∧ c.prev.isSome
+-- OPEN rightTri_disjoint
+--   as `rightTri_disjoint_partial` for the day unit, for fractional lags, and for incremental input
+-- OPEN rightTri_incremental_chain
+--   makeRightTriangle t lags unit = .ok out → Triangle.isIncremental t = true → Spec.C15.chainOk t out = true
+--   (first added cell of a row: prev = the row's observed right-edge evaluation date; later ones: prev = previous added date)
+-- OPEN rightTri_empty_when_complete
+--   as `rightTri_empty_when_complete_partial` for incremental input (holds in /repo since the D12 fix)
+-- OPEN rightDiag_spec
+--   as `rightDiag_spec_partial` for incremental input, plus the chain clause
+-- OPEN fill_preserves_observed
+--   fillForwardGaps t res? noneFlag = .ok out → (no two cells of t share metadata, period and lag) →
+--     Spec.C15.kept t out = t        (every observed cell is in the output, unchanged)
+-- OPEN fill_added_inside_gaps
+--   fillForwardGaps t res? noneFlag = .ok out → Spec.C15.resolveRes t res? = some res → Spec.C15.fillCompatible t res = true →
+--     Spec.C15.fillInsideGaps t res out = true ∧ Spec.C15.fillComplete t res out = true
+-- OPEN fill_values
+--   ... same hypotheses → Spec.C15.fillValues t noneFlag out = true   (carried forward or all None)
+-- OPEN backfill_before_first_dates
+--   under month alignment the evaluation date of every added cell precedes the row's first observation:
+--   (∀ c ∈ t, MonthAligned c) → ... → a = backfillCell first repl res i → a.ev < first.ev
+-- OPEN backfill_min_lag_exact
+--   for the first slice of every period ALL lags first - k·res ≥ max(min_dev_lag, -period_resolution+1) are supplied
+--   (Spec.C15.backfillMinLag); needs `takeValid` = identity, i.e. every such cell passes the constructor
+-- OPEN extensionSpec_model
+--   the Spec predicates hold of the model's outputs:
+--   makeRightTriangle t lags unit = .ok out → LagUnit.parse? unit = some u → Spec.C15.allHold (Spec.C15.rightTriSpec t lags u out) = true
+--   (and the analogues for rightDiagSpec, fillSpec, backfillSpec)
 
 end Bermuda.Properties.C15
